@@ -275,8 +275,13 @@ def check_replace(ctx):
                    [rng.choice([0, 1, 255, 3000, 5000]) for _ in range(rng.randrange(0, 5))]
             spec.append((1000 + s * 17, lens))
         newlen = rng.choice([0, 5, 200, 4000, 4080, 9000, 20000, 40000])
-        specs.append((spec, rng.randrange(nstreams), newlen))
-    for i, (spec, which, newlen) in enumerate(specs):
+        which = rng.randrange(nstreams)
+        # which packet is replaced (packet 1 mostly, later ones so that the run starts later in the stream) and
+        # how the caller numbered the new pages (replace() copies serial and sequence numbers over)
+        t = 1 if rng.random() < 0.4 else rng.randrange(len(spec[which][1]))
+        mode = rng.choice(["preserve", "preserve", "seq0", "seqN"])
+        specs.append((spec, which, newlen, t, mode))
+    for i, (spec, which, newlen, t, mode) in enumerate(specs):
         data = build_stream(ctx, spec)
         serial = spec[which][0]
         before = walk_pages(data)
@@ -295,9 +300,9 @@ def check_replace(ctx):
         # pages that hold any byte of packet #1
         completed = 0; old = []; k = None
         for p in mine:
-            if p.packets and completed <= 1 <= completed + len(p.packets) - 1:
+            if p.packets and completed <= t <= completed + len(p.packets) - 1:
                 if not old:
-                    k = 1 - completed
+                    k = t - completed
                 old.append(p)
             completed += len(p.packets) - (0 if p.complete else 1)
         if not old:
@@ -305,11 +310,18 @@ def check_replace(ctx):
         old_packets = OggPage.to_packets(old)
         new_packets = list(old_packets)
         new_packets[k] = packet(99, newlen)
-        new_pages = OggPage._from_packets_try_preserve(new_packets, old)
-        case = {"fn": "replace", "spec": spec, "serial": serial, "newlen": newlen, "old_pages": len(old), "new_pages": len(new_pages)}
+        if mode == "preserve":
+            new_pages = OggPage._from_packets_try_preserve(new_packets, old)
+        elif mode == "seq0":
+            new_pages = OggPage.from_packets(new_packets)
+        else:
+            new_pages = OggPage.from_packets(new_packets, rng.choice([1, 7, 1000]))
+        case = {"fn": "replace", "spec": spec, "serial": serial, "newlen": newlen, "packet": t, "new_pages_from": mode,
+                "old_pages": len(old), "new_pages": len(new_pages)}
         rel = "fewer" if len(new_pages) < len(old) else "equal" if len(new_pages) == len(old) else "more"
         ctx.hist["replace:" + rel] += 1
-        ctx.case(key=("replace", repr(spec), which, newlen), nontrivial=True, modelled=False,
+        ctx.hist["replace:%s:%s:first-old-seq-%s" % (mode, rel, "0" if old[0].sequence == 0 else ">0")] += 1
+        ctx.case(key=("replace", repr(spec), which, newlen, t, mode), nontrivial=True, modelled=False,
                  sample=case if i == 3 else None)
         kind, err = timed(lambda: OggPage.replace(f, old, new_pages), 20)
         if kind != "ok":
@@ -338,9 +350,62 @@ def check_replace(ctx):
             ctx.violation("replace:first-last-flags", "first/last flags duplicated or lost", case)
         pk_b, tb = packets_of(before, serial)
         pk_a, ta = packets_of(after, serial)
-        exp = list(pk_b); exp[1] = packet(99, newlen)
+        exp = list(pk_b); exp[t] = packet(99, newlen)
         if pk_a != exp or ta is not None:
-            ctx.violation("replace:packets", "packets of the edited stream are not the old ones with packet 1 replaced", case)
+            ctx.violation("replace:packets", "packets of the edited stream are not the old ones with packet %d replaced" % t, case)
+
+
+def check_try_preserve(ctx):
+    """_from_packets_try_preserve(packets, old_pages): the result reassembles to exactly `packets` and is numbered from
+    old_pages[0].sequence, whatever the relation of the new packet sizes to the old ones (same sizes: layout copied;
+    same count and total but different sizes; different count)"""
+    from mutagen.ogg import OggPage
+    rng = ctx.rng
+    for i in range(ctx.budget(60, 600)):
+        n = rng.randrange(1, 6)
+        lens = [rng.choice([0, 1, 100, 200, 254, 255, 256, 510, 3000, 4080, 5000, 9000]) for _ in range(n)]
+        seq = rng.choice([0, 3, 70000])
+        old = OggPage.from_packets([packet(j, x) for j, x in enumerate(lens)], seq, rng.choice([255, 1024, 4096]), rng.choice([0, 2048]))
+        if not old:
+            continue
+        rel = rng.choice(["same", "permuted", "shift-byte", "other-count", "other-total"])
+        new = list(lens)
+        if rel == "permuted":
+            rng.shuffle(new)
+        elif rel == "shift-byte" and n > 1:
+            a, b = rng.sample(range(n), 2)
+            if new[a] > 0:
+                d = rng.choice([1, 1, new[a]]); new[a] -= d; new[b] += d
+        elif rel == "other-count":
+            new = new + [rng.choice([0, 5, 300])] if rng.random() < 0.5 or n == 1 else new[:-1]
+        elif rel == "other-total":
+            new[rng.randrange(n)] += rng.choice([1, 255, 4000])
+        new_packets = [packet(50 + j, x) for j, x in enumerate(new)]
+        case = {"fn": "_from_packets_try_preserve", "old_lens": lens, "new_lens": new, "seq": seq, "relation": rel}
+        ctx.hist["try_preserve:" + ("same-sizes" if new == lens else "same-count-and-total" if (len(new), sum(new)) == (len(lens), sum(lens)) else "different")] += 1
+        ctx.case(key=("try_preserve", tuple(lens), tuple(new), seq), nontrivial=True, modelled=False, sample=case if i == 5 else None)
+        kind, pages = timed(lambda: OggPage._from_packets_try_preserve(new_packets, old), 20)
+        if kind != "ok":
+            ctx.violation("try_preserve:" + kind, "_from_packets_try_preserve raised/hung: %r" % (pages,), case)
+            continue
+        try:
+            back = OggPage.to_packets(pages, strict=True) if pages else []
+        except Exception as e:
+            ctx.violation("try_preserve:to_packets-raises", "to_packets of the result raised %s: %s" % (type(e).__name__, e), case)
+            continue
+        if back != new_packets:
+            ctx.violation("try_preserve:roundtrip", "to_packets(_from_packets_try_preserve(p, old)) != p (sizes %r instead of %r)" % (
+                [len(x) for x in back][:8], new[:8]), case)
+        if [p.sequence for p in pages] != list(range(seq, seq + len(pages))):
+            ctx.violation("try_preserve:sequence", "result is not numbered from old_pages[0].sequence", case)
+        for pg in pages:
+            try:
+                w = pg.write()
+            except Exception as e:
+                ctx.violation("try_preserve:unrenderable", "a result page cannot be rendered: %s" % type(e).__name__, case)
+                break
+            if len(w) != pg.size or w[26] > 255:
+                ctx.violation("try_preserve:size", "size != len(write())", case)
 
 
 def check_to_packets_edge(ctx):
@@ -397,6 +462,7 @@ def run(ctx):
     check_from_packets(ctx)
     check_sample_crcs(ctx)
     check_replace(ctx)
+    check_try_preserve(ctx)
 
 
 def search(ctx):
